@@ -86,10 +86,12 @@ func (s *Service) Init(ctx context.Context) error {
 
 	// parse pipeline config files
 	configs := make([]config.Pipeline, 0, len(files))
+	parseFailed := false // true if the IDs of some pipelines in the files are unknown
 	for _, file := range files {
 		cfg, err := s.parsePipelineConfigFile(ctx, file)
 		if err != nil {
 			errs = append(errs, err)
+			parseFailed = true
 			// keep the pipelines that did parse; only the bad documents in the
 			// file are skipped (#2255), so fall through to append cfg.
 		}
@@ -99,14 +101,17 @@ func (s *Service) Init(ctx context.Context) error {
 	// contains pipelineIDs of all the pipelines in all the configuration files, either successfully provisioned or not.
 	var allPls []string
 
-	// delete duplicate pipelines (if any)
+	// delete duplicate pipelines (if any); the indexes refer to the list as it
+	// is now, so they are collected for all duplicated IDs and removed in one go
+	var allDuplicateIndexes []int
 	for duplicateID, duplicateIndexes := range s.findDuplicateIDs(configs) {
 		errs = append(errs, cerrors.Errorf("%d pipelines with ID %q will be skipped: %w", len(duplicateIndexes), duplicateID, ErrDuplicatedPipelineID))
-		configs = s.deleteIndexes(configs, duplicateIndexes)
+		allDuplicateIndexes = append(allDuplicateIndexes, duplicateIndexes...)
 
 		// duplicated IDs should still count towards all encountered pipeline IDs
 		allPls = append(allPls, duplicateID)
 	}
+	configs = s.deleteIndexes(configs, allDuplicateIndexes)
 
 	// remove pipelines with duplicate IDs from API pipelines
 	var apiProvisioned []int
@@ -139,7 +144,14 @@ func (s *Service) Init(ctx context.Context) error {
 	}
 
 	// pipelines that were provisioned by config but are not in the config files anymore
-	deletedPls := s.deleteOldPipelines(ctx, allPls)
+	var deletedPls []string
+	if parseFailed {
+		// a pipeline whose document could not be parsed is not "gone", its
+		// import failed: keep what is stored (including connector positions)
+		s.logger.Warn(ctx).Msg("some pipeline config files could not be parsed, pipelines missing from the config files are not deleted")
+	} else {
+		deletedPls = s.deleteOldPipelines(ctx, allPls)
+	}
 	s.logger.Info(ctx).
 		Strs("created", successPls).
 		Strs("deleted", deletedPls).
